@@ -151,6 +151,8 @@ def shape_family(tier, seed):
             nva = rnd.randint(1, 3)
             segs = [(s[0], nva, s[2], s[3]) for s in segs]
             fam.append(make_shape(segs, rnd.random() < 0.5, False, rnd.choice([3, 3, 10, 0x20, 0x44]), rnd.choice([0, 0, 0, 3])))
+    from .. import shapes
+    fam += shapes.random_family(seed + 17, 150 if tier == 'thorough' else 12, need_a=True, allow_trunc=True)
     # keep only valid models, dedupe
     out, seen = [], set()
     for sh in fam:
